@@ -152,6 +152,9 @@ pub fn run(p: &Params) -> Run {
         for a in &bs { for b_ in &bs { let c = rng.pick(&bs).clone(); emit(&mut run, a, b_, &c); } }
         run.notes.push(format!("all {} ordered pairs over the {}-value boundary set, random third element", bs.len() * bs.len(), bs.len()));
     }
+    // the comparison used by WHERE / IN for an INT with a REAL (numbers compare by numeric value)
+    let env = crate::c03::gen_env(&mut rng);
+    crate::c03::boundary_cases(&mut run, &env, p.tier_thorough);
     let n = p.n(4000, 200_000);
     for _ in 0..n {
         // mostly same-typed triples (where the order matters), sometimes mixed
